@@ -1,7 +1,7 @@
 """Property id -> check function."""
 import json
 from common import *
-import checks_txn, checks_cache, checks_pure, checks_sess, checks_gates, checks_serial, txnfam, findings
+import checks_txn, checks_cache, checks_pure, checks_sess, checks_gates, checks_serial, checks_reconn, txnfam, findings
 
 
 def replay_txn(prop, path):
@@ -95,3 +95,7 @@ REPLAY["C13"] = replay_generic
 
 CHECKS["C14"] = checks_sess.run_c14
 REPLAY["C14"] = replay_c01
+
+GENERIC_CONFIRM["C16"] = checks_reconn.confirm_fn
+CHECKS["C16"] = checks_reconn.run_check
+REPLAY["C16"] = replay_generic
